@@ -443,3 +443,14 @@ func TempPath() string {
 
 // MigrationsDir is the migrations directory of the working tree.
 func MigrationsDir() string { return filepath.Join(repoDir(), "database/migrations") }
+
+// TempRelPath returns a fresh file name relative to the working directory (the import resolves
+// the prepared-database path against the working directory), removed at the end of the replay entry.
+func TempRelPath(suffix string) string {
+	relSeq++
+	name := fmt.Sprintf("zz-vh-%d-%d%s", os.Getpid(), relSeq, suffix)
+	vh.Cleanup(func() { os.Remove(name) })
+	return name
+}
+
+var relSeq int
